@@ -730,7 +730,7 @@ func (st *c07state) guardAlreadyFalse(x *core.Explorer, head *ssa.BasicBlock, ev
 		return false
 	}
 	cmp, ok := iff.Cond.(*ssa.BinOp)
-	if !ok || cmp.Op != token.EQL {
+	if !ok || (cmp.Op != token.EQL && cmp.Op != token.NEQ) {
 		return false
 	}
 	k, isC := cmp.Y.(*ssa.Const)
@@ -746,7 +746,7 @@ func (st *c07state) guardAlreadyFalse(x *core.Explorer, head *ssa.BasicBlock, ev
 		return false
 	}
 	body := loopBody(head)
-	if !body[head.Succs[0]] || body[head.Succs[1]] {
+	if body[head.Succs[0]] == body[head.Succs[1]] {
 		return false
 	}
 	cur, known := x.Peek(x.FieldAddrOf(eval(fa.X), fieldOf(fa)))
@@ -754,7 +754,16 @@ func (st *c07state) guardAlreadyFalse(x *core.Explorer, head *ssa.BasicBlock, ev
 		return false
 	}
 	v, decided := x.Decide(x.Eq(cur, x.T.Const(nil, cur.Type)))
-	return decided && !v
+	if !decided {
+		return false
+	}
+	// the successor the test selects in the current state: `for f == nil {` and
+	// `for { if f != nil { return } ...` are the same guard
+	next := head.Succs[1]
+	if v == (cmp.Op == token.EQL) {
+		next = head.Succs[0]
+	}
+	return !body[next]
 }
 
 // isCursorType: strings and byte slices can serve as shrinking cursors of a loop.
